@@ -38,13 +38,13 @@ def grads_mode(cases):
             env = _env()
             try:
                 for name, shape in spec.get("carrs", []):
-                    env[name] = (rng.rand(*shape) * 0.5 + 0.25).astype(dt)
+                    env[name] = np.asarray(rng.rand(*shape) * 0.5 + 0.25).astype(dt)
                 if spec.get("setup"):
                     exec(spec["setup"], env)
                 leaves = {}
                 for ent in spec.get("leaves", []):
                     name, shape = ent[0], tuple(ent[1])
-                    a = (rng.rand(*shape) * 0.5 + 0.25).astype(dt)
+                    a = np.asarray(rng.rand(*shape) * 0.5 + 0.25).astype(dt)
                     if len(ent) > 2 and ent[2] == "F" and len(shape) >= 2:
                         a = np.asfortranarray(a)
                     leaves[name] = mg.Tensor(a)
@@ -99,7 +99,7 @@ def _mk(kind, dt, rng, shape=(2,)):
     elif dt.startswith("int"):
         a = (np.arange(int(np.prod(shape)) or 1) + 1).reshape(shape).astype(dt)
     else:
-        a = (rng.rand(*shape) * 0.5 + 0.5).astype(dt)
+        a = np.asarray(rng.rand(*shape) * 0.5 + 0.5).astype(dt)
     if kind == "arr0d":
         return np.array(a.reshape(-1)[0], dtype=dt)
     return a
